@@ -458,3 +458,29 @@ func init() {
 			return false, ""
 		})
 }
+
+func init() {
+	registerKF("f27-seek-keeps-range-start", "C05",
+		"commit.Reader.Seek did not reset the offset base (start) that a previous Range left behind: Seek, Rewind, Next on a re-used reader returned every offset shifted by it",
+		func() (bool, string) {
+			a := commit.NewBuffer(8)
+			a.Reset("a")
+			a.PutUint16(commit.Put, 16384+7, 1) // a section whose offset base is 0 ... and one that starts at 16391
+			a.PutUint16(commit.Put, 3, 2)
+			a.PutUint16(commit.Put, 16384+9, 3)
+			b := commit.NewBuffer(8)
+			b.Reset("b")
+			b.PutUint16(commit.Put, 5, 9)
+			r := commit.NewReader()
+			r.Range(a, 1, func(r *commit.Reader) {
+				for r.Next() {
+				}
+			})
+			r.Seek(b)
+			r.Rewind()
+			if !r.Next() || r.Index() != 5 {
+				return true, fmt.Sprintf("after Range over another buffer: Seek, Rewind, Next yields offset %d for the operation written at offset 5", r.Index())
+			}
+			return false, ""
+		})
+}
